@@ -145,8 +145,11 @@ def ref(e, o):
         out = []
         for combo in itertools.product(*its.values()):
             assign = dict(zip(its.keys(), combo))
-            from labrea.iterable import Map
-            out.append((assign, ref(e.evaluatable, mix(o, Map._create_option_set(*assign.items())))))
+            from confectioner.templating import set_dotted_key as _set
+            overlay = {}
+            for dk, dv in assign.items():       # the assignment as an options dictionary, built here (not with the code under test)
+                _set(dk, dv, overlay)
+            out.append((assign, ref(e.evaluatable, mix(o, overlay))))
         return out
     if n == "_AllOptions":
         return resolve(o)
